@@ -510,9 +510,10 @@ func check(prop, tier string) int {
 	}
 
 	// ---- fatal ends: attribute, confirm in fresh processes, classify
-	confirmed := 0
 	var harnessErrors []string
 	blockedFatal := map[string]int64{}
+	confirmedClass := map[string]int{}
+	var transient []string
 	for _, f := range fatals {
 		loc := locate(bin, prop, tier, f)
 		if loc == nil {
@@ -522,45 +523,71 @@ func check(prop, tier string) int {
 		class := "fatal:" + f.Kind + ":" + f.Stuck
 		v := Violation{Prop: prop, Class: class, Pass: loc.Pass, Input: loc.Input, Cfg: loc.Cfg, Tier: tier,
 			Detail: fmt.Sprintf("worker process ended abnormally (%s) in %s\n%s", f.Kind, f.Stuck, tail(f.StderrTail, 1500))}
+		if spec.FatalIsViolation {
+			if kf := matchKnownFatal(kfs, prop, class, loc.Cfg, loc.Preds); kf != "" {
+				addMap(&total.Known, map[string]int64{kf: 1})
+				if total.KnownWitness == nil {
+					total.KnownWitness = map[string]json.RawMessage{}
+				}
+				if _, ok := total.KnownWitness[kf]; !ok {
+					w, _ := json.Marshal(map[string]any{"input": loc.Input, "cfg": loc.Cfg, "class": class})
+					total.KnownWitness[kf] = w
+				}
+				continue
+			}
+		}
+		// Every abnormal end is re-run alone in fresh processes (tripled budgets) before it is believed: a stalled machine
+		// (load, a paused VM) makes the watchdog fire on perfectly healthy units. Once a class has been confirmed three
+		// times, further members are taken on the strength of those.
+		if confirmedClass[class] < 3 {
+			needs := 1
+			if spec.FatalIsViolation {
+				needs = 3
+			}
+			tmp := filepath.Join(work, fmt.Sprintf("confirm-%d-%d-%d.json", f.Pass, f.Input, f.Cfg))
+			vb, _ := json.Marshal(v)
+			os.WriteFile(tmp, vb, 0o644)
+			rep, foundViol := 0, false
+			for i := 0; i < needs; i++ {
+				ctx, cancel := context.WithTimeout(context.Background(), time.Duration(spec.BudgetS*4+30)*time.Second)
+				cmd := exec.CommandContext(ctx, bin, "-prop", prop, "-tier", tier, "-replay", tmp, "-anyviol", "-known", filepath.Join(verifDir, "known_findings.json"),
+					"-budget", fmt.Sprint(spec.BudgetS*3), "-bscale", "3")
+				cmd.Env = append(os.Environ(), "GOMAXPROCS=2")
+				err := cmd.Run()
+				cancel()
+				code := 0
+				if err != nil {
+					code = 99
+					if ee, ok := err.(*exec.ExitError); ok {
+						code = ee.ExitCode()
+					}
+				}
+				if code != 0 && code != 1 {
+					rep++
+					continue
+				}
+				foundViol = code == 1
+				break
+			}
+			if rep < needs {
+				transient = append(transient, fmt.Sprintf("%s at unit %d:%d:%d (pass %s) did not reproduce alone in a fresh process (%d/%d): attributed to a stalled machine, the unit was judged by the re-run", class, f.Pass, f.Input, f.Cfg, loc.Pass, rep, needs))
+				if foundViol {
+					v.Class = "found-in-isolated-rerun"
+					v.Detail = "the unit ended abnormally inside the sharded run, completed when re-run alone, and the re-run reported oracle violations: replay the file to see them"
+					total.Violations++
+					addMap(&total.ViolClass, map[string]int64{v.Class: 1})
+					viols = append(viols, v)
+				}
+				continue
+			}
+			confirmedClass[class]++
+		}
 		if !spec.FatalIsViolation {
 			if blockedFatal[class] < 3 {
 				fmt.Printf("NOTE: blocked by a fatal end (%s) — C01's business: pass=%s input=%s cfg=%s\n", class, loc.Pass, clip(string(loc.Input), 200), loc.Cfg)
 			}
 			blockedFatal[class]++
 			continue
-		}
-		if kf := matchKnownFatal(kfs, prop, class, loc.Cfg, loc.Preds); kf != "" {
-			addMap(&total.Known, map[string]int64{kf: 1})
-			if total.KnownWitness == nil {
-				total.KnownWitness = map[string]json.RawMessage{}
-			}
-			if _, ok := total.KnownWitness[kf]; !ok {
-				w, _ := json.Marshal(map[string]any{"input": loc.Input, "cfg": loc.Cfg, "class": class})
-				total.KnownWitness[kf] = w
-			}
-			continue
-		}
-		// confirm: the same unit must end abnormally in 3 fresh processes (tripled budget) — only for the
-		// first few; the rest are reported on the strength of those
-		if confirmed < 3 {
-			path := writeReplay(v)
-			rep := 0
-			for i := 0; i < 3; i++ {
-				ctx, cancel := context.WithTimeout(context.Background(), time.Duration(spec.BudgetS*4+30)*time.Second)
-				cmd := exec.CommandContext(ctx, bin, "-prop", prop, "-tier", tier, "-replay", path, "-budget", fmt.Sprint(spec.BudgetS*3), "-bscale", "3")
-				defer cancel()
-				cmd.Env = append(os.Environ(), "GOMAXPROCS=2")
-				if err := cmd.Run(); err != nil {
-					if ee, ok := err.(*exec.ExitError); ok && ee.ExitCode() != 1 && ee.ExitCode() != 0 {
-						rep++
-					}
-				}
-			}
-			if rep < 3 {
-				harnessErrors = append(harnessErrors, fmt.Sprintf("fatal end (%s) of unit %d:%d:%d reproduced only %d/3 times in fresh processes: unowned nondeterminism or machine load, not reported as a violation", f.Kind, f.Pass, f.Input, f.Cfg, rep))
-				continue
-			}
-			confirmed++
 		}
 		total.Violations++
 		addMap(&total.ViolClass, map[string]int64{class: 1})
@@ -704,6 +731,7 @@ func check(prop, tier string) int {
 		"conformance_mismatches":        len(mismatches),
 		"fatal_ends":                    len(fatals),
 		"harness_errors":                harnessErrors,
+		"transient_abnormal_ends":       transient,
 		"workers":                       nw,
 		"build_mode":                    spec.Mode,
 		"replays":                       replayPaths,
